@@ -77,6 +77,8 @@ pub struct SFacts {
     pub cancels_read: Vec<(usize, u64)>,
     pub stream_end: Option<usize>,
     pub stream_err: Option<(usize, String)>,
+    /// error items after which the application kept polling the stream (rec idx)
+    pub served_on_errors: Vec<usize>,
     pub stream_dropped: Option<usize>,
     pub eof_read: Option<usize>,
     pub panics: Vec<String>,
@@ -125,6 +127,14 @@ fn tracked(f: &SFacts, i: &Inst, at: usize) -> (bool, bool) {
         return (false, false);
     }
     if i.yielded.is_none() && i.throttled.is_none() {
+        // read in a poll whose write side then failed, so that the request was given up inside
+        // the channel before it could be yielded: the notice of its own guard is processed by the
+        // channel's next poll - until that poll has ended the channel may still count it
+        let e1 = f.poll_end_after(i.handed);
+        if e1 != usize::MAX && f.served_on_errors.iter().any(|x| *x > e1 && *x <= e1 + 3) {
+            let e2 = f.poll_end_after(e1 + 1);
+            return (false, at <= e2);
+        }
         // handed over but neither yielded nor throttled: only a duplicate of a tracked id
         return (false, false);
     }
@@ -246,11 +256,20 @@ pub fn sfacts(recs: &[Rec]) -> SFacts {
                     f.eof_read = Some(i);
                 }
             }
-            Rec::T { side: 1, op, res: Res::Err, .. } => {
+            Rec::T { side: 1, op, res: Res::Err, msg, .. } => {
                 if f.first_err.is_none() {
                     f.first_err = Some((i, *op));
                 }
+                // a response whose write failed: the channel has let go of the request
+                if let (Op::Send, Some(Msg::Resp { body: Ok(tok), .. })) = (op, msg) {
+                    if *tok >= 5000 {
+                        if let Some(o) = f.inst.get_mut(&(tok - 5000)) {
+                            o.resp.push(i);
+                        }
+                    }
+                }
             }
+            Rec::S("stream_err_served_on", _) => f.served_on_errors.push(i),
             Rec::T { side: 1, op: Op::Send, res: Res::Ok, msg: Some(m), .. } => {
                 f.wire.push((i, m.clone()));
                 if let Msg::Resp { id, body } = m {
@@ -879,6 +898,18 @@ fn c08(cfg: &SCfg, e: &Exec, f: &SFacts, vs: &mut Vec<Violation>, nt: &mut bool)
                     v(vs, "C08-response-after-cancel", cfg, format!("response for id {} transmitted after its cancellation was processed", i.id));
                 }
             }
+            // "... only if the handler finished before the request ... expired": a handler that
+            // finished a whole millisecond (the timers' granularity) after the deadline was too late
+            // whatever the channel had or had not been polled for in between (no limiter here, so the
+            // known finding D-C06 does not apply)
+            if cfg.limit.is_none() {
+                if let Some(hf) = i.hfinish {
+                    let ms = 1_000_000i128;
+                    if f.time_at(hf) >= i.deadline_ns + ms && i.deadline_ns > 0 {
+                        v(vs, "C08-response-after-expiry", cfg, format!("response for id {} (deadline {}ms) transmitted although its handler finished only at t={}ms", i.id, i.deadline_ns / ms, f.time_at(hf) / ms));
+                    }
+                }
+            }
         }
     }
     // every response answers a request read on this channel, with that request's id
@@ -1274,6 +1305,7 @@ fn base(reqs: Vec<ReqCfg>, limit: Option<usize>, rb: usize, fl: Flavour, cap: us
         cap,
         alphabet,
         fault: None,
+        serve_on_after_error: false,
         eof_at_end: true,
         route: Route::Requests,
         burst: false,
@@ -1384,6 +1416,16 @@ pub fn configs(prop: SProp, tier: Tier) -> Vec<SCfg> {
                 let reqs = vec![mk(0, 10_000, true), mk(1, 10_000, true), mk(2, d2, f2)];
                 out.push(base(reqs, None, 1, Flavour::Coupled, 1, alpha));
             }
+            // the peer has stopped sending (end of the inbound side) but still reads: requests in
+            // flight keep their deadlines (seeded change C08h stopped driving the timers of a
+            // half-closed connection)
+            for limit in [None, Some(1)] {
+                for (d0, f0) in [(1i64, false), (50, false), (50, true)] {
+                    let mk = |id: u64, d: i64, fin: bool| ReqCfg { deadline_ms: d, ..ReqCfg::simple(id, fin) };
+                    out.push(base(vec![mk(0, d0, f0)], limit, 1, Flavour::Always, 1, alpha | S_EOF));
+                    out.push(base(vec![mk(0, d0, f0), mk(1, 10_000, true)], limit, 1, Flavour::Coupled, 1, alpha | S_EOF));
+                }
+            }
             let ds: &[i64] = &[-1000, 0, 1, 50, 1000, 700 * 86_400_000];
             for limit in [None, Some(1), Some(2)] {
                 for (fl, cap) in sinks {
@@ -1476,6 +1518,16 @@ pub fn configs(prop: SProp, tier: Tier) -> Vec<SCfg> {
                                 // request in flight stays the only one (seeded change C08c: the
                                 // ignored duplicate left a timer behind that later "expired" the
                                 // original, so the next duplicate was offered as a new request)
+                                // a request in flight on a connection whose inbound side the peer
+                                // has ended (it still reads), the clock passing the deadline, the
+                                // handler finishing afterwards (seeded change C08h stopped driving
+                                // the timers of a half-closed connection)
+                                if n == 1 && rb == 1 && pol[0] {
+                                    let rs = vec![ReqCfg { deadline_ms: 50, ..ReqCfg::simple(1, true) }];
+                                    let mut c = base(rs, None, rb, *fl, *cap, S_EOF | S_FINISH | S_DRAIN | S_ADVANCE);
+                                    c.route = route;
+                                    out.push(c);
+                                }
                                 if n == 1 && rb == 1 {
                                     let rs = vec![
                                         ReqCfg::simple(1, pol[0]),
@@ -1531,6 +1583,20 @@ pub fn configs(prop: SProp, tier: Tier) -> Vec<SCfg> {
         }
         SProp::C11 => {
             let alpha = S_CANCEL | S_FINISH | S_DROPH | S_DRAIN | S_ADVANCE | S_DUP;
+            // one write fails (a response that cannot be encoded), the application logs the error
+            // and keeps serving: a request that had been read in that very poll and was never
+            // yielded must not stay counted (seeded change C11h)
+            for op in [Op::Send, Op::Ready, Op::Flush] {
+                for k in 1..=2u32 {
+                    for rb in [1usize, 2] {
+                        let reqs: Vec<ReqCfg> = (0..3u64).map(|i| ReqCfg::simple(i, true)).collect();
+                        let mut c = base(reqs, None, rb, Flavour::Always, 1, S_FINISH | S_DRAIN | S_ADVANCE);
+                        c.fault = Some(Fault { op, k, sticky: false, eof: false });
+                        c.serve_on_after_error = true;
+                        out.push(c);
+                    }
+                }
+            }
             for limit in [None, Some(2)] {
                 for rb in [1usize, 2] {
                     for (fl, cap) in sinks {
@@ -1632,6 +1698,24 @@ pub fn configs(prop: SProp, tier: Tier) -> Vec<SCfg> {
                                     c.route = Route::Execute;
                                     out.push(c);
                                 }
+                            }
+                        }
+                    }
+                    // the application gives up several requests between two polls of the channel (their
+                    // handlers dropped at their first poll), then more requests arrive: every slot has
+                    // been given back (seeded change C12h bounded the queue of the guards' notices by
+                    // the response buffer and lost the ones that did not fit)
+                    if l == 2 {
+                        for rb in [1usize, 2] {
+                            for drops in [2usize, 3] {
+                                let mut rs: Vec<ReqCfg> = (0..(drops as u64 + 2)).map(|i| ReqCfg::simple(i, true)).collect();
+                                for r in rs.iter_mut().take(drops) {
+                                    r.hk = HKind::DropAfter(0);
+                                }
+                                if drops == 3 && (rb == 1 || !thorough) && *cap != 1 {
+                                    continue;
+                                }
+                                out.push(base(rs, Some(if drops == 3 { 3 } else { l }), rb, *fl, *cap, alpha));
                             }
                         }
                     }
